@@ -24,12 +24,15 @@ LEX = "prqlc-parser/src/lexer/mod.rs"
 
 
 def r1(ctx, rep):
+    import alpha
+    import re
     rep.rule("C17.R1", "a token's span is exactly what its own parser consumed", floor=4)
     syn = ctx.syn
     n_sites = 0
     for f in syn.fns_in_file(LEX):
         if "body" not in f:
             continue
+        A = alpha.Inliner(f)
         for n in walk(f["body"]):
             if n.get("k") == "struct" and last_seg(n["p"]) == "Token":
                 n_sites += 1
@@ -40,57 +43,81 @@ def r1(ctx, rep):
                     ok = sp is not None and sp.get("k") == "range" and lit_val(sp.get("s")) == 0 and lit_val(sp.get("e")) == 0 and show(d.get("kind")) == "TokenKind::Start"
                     rep.check(ok, key, "the synthetic Start token must be 0..0", file=f["file"], line=n["l"], fn=f["path"])
                     continue
-                rep.check(show(sp) == "span.start()..span.end()", key, f"Token.span must be the closure's `span.start()..span.end()`; found `{show(sp)}`", file=f["file"], line=n["l"], fn=f["path"])
+                # locals inlined, closure parameters numbered: `<extra>.span().start()..<extra>.span().end()` for the closure's `extra`
+                t = A.show(sp) if sp is not None else ""
+                m = re.fullmatch(r"(\w+)\.span\(\)\.start\(\)\.\.(\w+)\.span\(\)\.end\(\)", t)
+                rep.check(bool(m) and m.group(1) == m.group(2), key, f"Token.span must be start..end of the span of the parser it is mapped over (`extra.span()`); found `{t}`", file=f["file"], line=n["l"], fn=f["path"])
     rep.check(n_sites == 3, "token-sites", f"expected 3 Token construction sites in the lexer (range, other tokens, start), found {n_sites}")
     lt = syn.fn("lexer::lex_token", crate="prqlc_parser")
-    locs = {show(s["pat"]): s["init"] for s in lt["body"]["s"] if s.get("k") == "local"}
-    ot = locs.get("other_tokens")
+    A = alpha.Inliner(lt)
+    tail = tail_expr(lt["body"])
+    alts = []
+    if tail is not None and tail.get("k") == "call" and last_seg(show(tail["f"])) == "choice" and tail["a"] and tail["a"][0].get("k") == "tuple":
+        for e in tail["a"][0]["e"]:
+            node = e
+            for _ in range(4):
+                if node.get("k") == "path" and "::" not in node["p"]:
+                    i = A._init_of(node, node["p"])
+                    if i is None:
+                        break
+                    node = i
+                else:
+                    break
+            alts.append(node)
+    is_range = lambda n: any(x.get("k") == "call" and last_seg(show(x["f"])) == "just" and x["a"] and lit_val(x["a"][0]) == ".." for x in walk(n))
+    rep.check(len(alts) == 2 and is_range(alts[0]) and not is_range(alts[1]), "choice", "lex_token must try the range token first, then any other token", file=lt["file"], line=lt["l"], fn=lt["path"])
+    rg = alts[0] if alts and is_range(alts[0]) else None
+    ot = alts[1] if len(alts) == 2 else None
     ok = False
     if ot is not None and ot.get("k") == "mcall" and ot["m"] == "ignore_then":
         recv = show(ot["r"])
         arg = ot["a"][0]
         ok = recv == "whitespace().or_not()" and arg.get("k") == "mcall" and arg["m"] == "map_with" and show(arg["r"]) == "token()"
-        # span local inside the closure comes from extra.span()
-        cl = arg["a"][0] if ok and arg["a"] else None
-        if cl is not None:
-            spans = [show(s["init"]) for s in walk(cl) if s.get("k") == "local" and show(s["pat"]) == "span"]
-            ok = ok and spans == ["extra.span()"]
     rep.check(ok, "other-tokens:span-scope", "for ordinary tokens the leading whitespace must be skipped OUTSIDE the spanned parser: `whitespace().or_not().ignore_then(token().map_with(..extra.span()..))`; "
               "otherwise token spans include the whitespace before them", file=lt["file"], line=lt["l"], fn=lt["path"])
-    rg = locs.get("range")
     ok = rg is not None and rg.get("k") == "mcall" and rg["m"] == "map_with" and show(rg["r"], maxdepth=8) == "whitespace().or_not().then(just('..')).then(whitespace().or_not())"
     rep.check(ok, "range:owns-whitespace", "the range token is the one token that owns its surrounding whitespace (bind_left / bind_right are derived from it)", file=lt["file"], line=lt["l"], fn=lt["path"])
     if ok:
         cl = rg["a"][0]
+        names = [x["n"] for x in walk(cl["params"][0]) if x.get("k") in ("p_ident", "p_wild") and x.get("k") == "p_ident"]
         st = None
         for n in walk(cl):
             if n.get("k") == "struct" and last_seg(n["p"]) == "Range":
                 st = {a: show(b) for a, b in n["f"]}
-        rep.check(st == {"bind_left": "left.is_none()", "bind_right": "right.is_none()"} and show(cl["params"][0]) == "((left, _), right)", "range:binding",
-                  f"bind_left / bind_right must mean 'no whitespace on that side'; found {st}", file=lt["file"], line=lt["l"], fn=lt["path"])
-    rep.check(show(tail_expr(lt["body"])) == "choice((range, other_tokens))", "choice", "lex_token must try the range token first, then any other token", file=lt["file"], line=lt["l"], fn=lt["path"])
+        # ((left, _), right): first bound name is the whitespace before, last the whitespace after
+        rep.check(len(names) == 2 and st == {"bind_left": f"{names[0]}.is_none()", "bind_right": f"{names[1]}.is_none()"} and cl["params"][0].get("k") == "p_tuple", "range:binding",
+                  f"bind_left / bind_right must mean 'no whitespace on that side'; found {st} for parameters {show(cl['params'][0])}", file=lt["file"], line=lt["l"], fn=lt["path"])
 
 
 def r2(ctx, rep):
     rep.rule("C17.R2", "a rejected source yields errors and no tokens", floor=2)
     syn = ctx.syn
-    for name, want_ok, want_err in (("lex_source", "Ok(Tokens(insert_start(tokens.to_vec())))", "Err(errors)"),
-                                    ("lex_source_recovery", "(Some(insert_start(tokens.to_vec())), vec!())", "(None, errors)")):
+    import alpha
+    for name, want_ok, want_err in (("lex_source", "Ok(Tokens(insert_start({ok}.to_vec())))", "Err({err})"),
+                                    ("lex_source_recovery", "(Some(insert_start({ok}.to_vec())), vec!())", "(None, {err})")):
         f = syn.fn("lexer::" + name, crate="prqlc_parser")
+        A = alpha.Inliner(f)
+        # the match over the lexer's result (scrutinee compared after inlining: the local may have any name or none)
         m = None
         for mm in matches_of(f["body"]):
-            if show(mm["e"]) == "result":
+            if A.show(mm["e"]) == "lexer().parse(source).into_result()":
                 m = mm
         rows = {}
+        bound = {}
         if m:
             for arm in m["arms"]:
                 h = str(pat_head(arm["pat"]))
                 b = arm["body"]
-                rows[h] = show(tail_expr(b) if b.get("k") == "block" else b)
-        rep.check(rows.get("Ok") == want_ok and rows.get("Err") == want_err, f"arms:{name}",
+                bound[h] = [x["n"] for x in walk(arm["pat"]) if x.get("k") == "p_ident"]
+                ab = alpha.Inliner(f, max_inline=2)
+                rows[h] = ab.show(tail_expr(b) if b.get("k") == "block" else b)
+        okn, errn = (bound.get("Ok") or ["?"])[0], (bound.get("Err") or ["?"])[0]
+        err_tail = rows.get("Err", "")
+        # the Err arm converts the errors (map + collect) and returns only them
+        err_ok = err_tail.startswith(want_err.split("{err}")[0]) and "convert_lexer_error" in err_tail and okn not in err_tail
+        rep.check(rows.get("Ok") == want_ok.format(ok=okn) and err_ok, f"arms:{name}",
                   f"{name} must return the tokens only on success and only the errors on failure; found {rows}", file=f["file"], line=f["l"], fn=f["path"])
-        r0 = [s for s in f["body"]["s"] if s.get("k") == "local" and show(s["pat"]) == "result"]
-        rep.check(bool(r0) and show(r0[0]["init"]) == "lexer().parse(source).into_result()", f"whole-input:{name}", "the lexer must be run over the whole source with into_result() (errors => no output)", file=f["file"], line=f["l"], fn=f["path"])
+        rep.check(m is not None, f"whole-input:{name}", "the lexer must be run over the whole source with into_result() (errors => no output)", file=f["file"], line=f["l"], fn=f["path"])
         # `source` must be the caller's string itself: spans are offsets into it
         params = [show(p.get("pat", p)) if isinstance(p, dict) else str(p) for p in f.get("params", [])]
         shadow = [show(n["pat"]) for n in walk(f["body"]) if n.get("k") == "local" and show(n["pat"]).replace("mut ", "") == "source"]
